@@ -155,6 +155,11 @@ func trustedResourceURLFormat(format string, args map[string]string) (TrustedRes
 		// segments or URL components.
 		return safehtmlutil.QueryEscapeURL(argVal)
 	})
+	if err == nil && safehtmlutil.URLContainsDoubleDotSegment(ret) {
+		// Arguments that are harmless on their own (e.g. "." and ".") can still combine with each
+		// other or with the surrounding format string into a ".." path segment.
+		return TrustedResourceURL{}, fmt.Errorf(`formatted URL %q must not contain ".."`, ret)
+	}
 	return TrustedResourceURL{ret}, err
 }
 
